@@ -115,6 +115,20 @@ var props = map[string]propMeta{
 		Probes:      []string{"class_ErrSubmit", "class_ErrBreak", "class_ErrDown", "class_ErrCanceled", "class_ErrAbandoned", "class_ErrMax"},
 		QuickS:      20, ThoroughS: 300,
 	},
+	"C15": {
+		Level: "fault_enumeration",
+		Rule: "always-on monitor: every value handed to Save is checked against the documented layout (packet || 8-byte little-endian sequence number || 4-byte big-endian FNV-1a over both, recomputed independently) with strictly increasing sequence numbers. family single-byte: a seeded base run leaves 1-3 outbound records (PUBLISH and PUBREL, 40-70 bytes) pending at a stop; the same seed is re-run once per case for EVERY byte position x all 255 other values and EVERY truncation length of every record, applied to the image before AdoptSession; family load-damage: one byte of a Load result is altered (or the result truncated) at drawn instants (resend, marker lookup, client-identifier load, AdoptSession). Oracles: a single-byte alteration or a value under 12 bytes is reported (warning or error), every PUBLISH/PUBREL on a wire equals a packet genuinely saved under that key, CONNECT carries the original client identifier." + distinctRule + " non-trivial = damage was applied and reported",
+		Assumptions: append([]string{"the single-byte and truncation enumeration is complete for each sampled base image (all records, all positions, all values), not over all images; detection of truncations of 12 bytes or more and of multi-byte damage is measured, not claimed (32-bit checksum)"}, flowAssumptions...),
+		Probes:      []string{"record_layout_checked", "damage_reported", "load_damaged", "damage_alter_publish", "damage_alter_pubrel", "damage_truncate_publish"},
+		QuickS:      25, ThoroughS: 400,
+	},
+	"C16": {
+		Level: "exploration",
+		Rule: "seeded: a flow run (publishers of both levels, inbound exactly-once traffic) is stopped at a drawn step; 1-3 records of the image (outbound PUBLISH, PUBREL, inbound marker, client identifier) are altered in one byte, truncated or removed and 0-2 stray entries added (foreign key ranges, garbage, valid-looking records); AdoptSession, then a fault-free incarnation with new publishes against the same broker model. Oracles: no fatal, no panic, at least one warning per unusable record, the client comes online and completes what it resumed and what is new within the liveness bounds, resent packets equal genuinely saved records in their original order, no identifier collision." + distinctRule + " non-trivial = damage was applied and the session recovered",
+		Assumptions: flowAssumptions,
+		Probes:      []string{"damaged_session_recovered", "damage_alter_publish", "damage_remove_publish", "damage_alter_pubrel", "damage_alter_marker", "damage_remove_marker", "damage_alter_clientid", "damage_stray_stray"},
+		QuickS:      25, ThoroughS: 400,
+	},
 	"C17": {
 		Level: "exploration",
 		Rule: "seeded runs with AtLeastOnceMax/ExactlyOnceMax in {0,1,2,3,-1,20000} and 1-4 concurrent publishers; oracles: identifiers of unfinished transactions pairwise distinct and non-zero across the four kinds, in-flight count never above the maximum, ErrMax only with excess and without waiting on the network." + distinctRule + " non-trivial = ErrMax was returned",
